@@ -993,8 +993,8 @@ class BaseWorkflow(object, metaclass=abc.ABCMeta):
                 List of absence step time in simulation.
         """
         for t in self.task_list:
-            if not isinstance(t, BaseSubProjectTask):
-                t.remove_absence_time_list(absence_time_list)
+            # BaseSubProjectTask has a bool attribute of the same name: call the method of BaseTask
+            BaseTask.remove_absence_time_list(t, absence_time_list)
 
     def insert_absence_time_list(self, absence_time_list):
         """
@@ -1005,8 +1005,7 @@ class BaseWorkflow(object, metaclass=abc.ABCMeta):
                 List of absence step time in simulation.
         """
         for t in self.task_list:
-            if not isinstance(t, BaseSubProjectTask):
-                t.insert_absence_time_list(absence_time_list)
+            BaseTask.insert_absence_time_list(t, absence_time_list)
 
     def print_log(self, target_step_time):
         """
